@@ -12,7 +12,7 @@
 
    Abstract syntax (records tagged by `t`)
      expressions   id(n)  str(s,q)  num(i)  lit  dot(o,f)  idx(o,k)  add(l,r)  par(e)  call(g,a)  none
-     statements    var(n,e)  decl(n)  set(n,e)  fun(n,p,ss,r)  funx(n,p,ss,r)
+     statements    var(n,e)  decl(n)  set(n,e)  if(c,ss)  fun(n,p,ss,r)  funx(n,p,ss,r)
      top level     pref(root,segs)   $(root.seg...)     parameter reference (regular syntax)
                    jsx(e)            $(e)               JavaScript expression
                    body(ss,r)        ${ ss return r; }  JavaScript function body
@@ -21,7 +21,8 @@
    Semantics: a call-by-value interpreter over a tiny heap (constant `Heap`, emitted to the oracle so
    that node evaluates against the same data).  Functions are evaluated with the environment of the
    call site; this coincides with JavaScript's lexical scoping for the family generated here, because
-   every function is called in the scope that declares it and no function assigns a variable.
+   every function is called in the scope that declares it and no function THAT IS CALLED assigns a variable
+   (functions that assign an outer variable occur only as declarations that are never called).
    `ok` = the evaluation does not throw, `sup` = it stays inside the modelled fragment.              *)
 EXTENDS Naturals, Sequences, FiniteSets, TLC
 
@@ -40,6 +41,7 @@ Call(g, a)   == [t |-> "call", g |-> g, a |-> a]         \* g(a)   /  g()  when 
 VarI(n, e)   == [t |-> "var", n |-> n, e |-> e]          \* var n = e;
 VarD(n)      == [t |-> "decl", n |-> n]                  \* var n;
 Set(n, e)    == [t |-> "set", n |-> n, e |-> e]          \* n = e;
+If(c, ss)    == [t |-> "if", c |-> c, ss |-> ss]         \* if (c) { ss }
 Fun(n, p, ss, r)  == [t |-> "fun",  n |-> n, p |-> p, ss |-> ss, r |-> r]  \* function n(p){ ss return r; }
 FunX(n, p, ss, r) == [t |-> "funx", n |-> n, p |-> p, ss |-> ss, r |-> r]  \* var n = function(p){ ss return r; };
 
@@ -67,13 +69,14 @@ VUnbound    == [v |-> "unbound"]
 VOther      == [v |-> "other"]                \* some primitive we do not track
 VStr(s)     == [v |-> "str", s |-> s]
 VNum(i)     == [v |-> "num", i |-> i]
+VBool(b)    == [v |-> "bool", b |-> b]
 VArr        == [v |-> "arr"]                  \* the array ["e0", "e1"]
 VObj(id, via) == [v |-> "obj", id |-> id, via |-> via]
 VFun(p, ss, r) == [v |-> "fun", p |-> p, ss |-> ss, r |-> r]
 
 \* The data the expressions are evaluated against (the oracle receives exactly this).
-\* inputs.g is the STRING "f": `inputs[inputs.g]` reads g and then f.
-ObjFields == [f |-> VObj("F", "na"), g |-> VStr("f"), arr |-> VArr]
+\* inputs.g is the STRING "f": `inputs[inputs.g]` reads g and then f.  inputs.flag is false.
+ObjFields == [f |-> VObj("F", "na"), g |-> VStr("f"), arr |-> VArr, flag |-> VBool(FALSE)]
 Heap == [IN   |-> ObjFields,
          SELF |-> ObjFields,
          LIT  |-> ObjFields,
@@ -118,6 +121,13 @@ Get(val, key, ak, s) ==
 
 KeyOf(v) == IF v.v = "str" THEN v.s ELSE ToString(v.i)
 
+\* JavaScript truthiness of the values that occur as conditions
+Truthy(v) == CASE v.v = "bool" -> v.b
+               [] v.v \in {"undef", "unbound"} -> FALSE
+               [] v.v = "num" -> v.i # 0
+               [] v.v = "str" -> v.s # ""
+               [] OTHER -> TRUE
+
 RECURSIVE Eval(_, _), ExecSeq(_, _, _)
 
 Exec(st, s) ==
@@ -131,6 +141,11 @@ Exec(st, s) ==
          IN IF ~Live(r.s) THEN r.s
             ELSE IF r.s.env[st.n].v = "unbound" THEN [r.s EXCEPT !.ok = FALSE]     \* strict mode: ReferenceError
             ELSE [r.s EXCEPT !.env[st.n] = Retag(r.v, "alias-assignment")]
+    [] st.t = "if" ->
+         LET r == Eval(st.c, s)
+         IN IF ~Live(r.s) THEN r.s
+            ELSE IF r.v.v = "other" THEN [r.s EXCEPT !.sup = FALSE]
+            ELSE IF Truthy(r.v) THEN ExecSeq(st.ss, 1, r.s) ELSE r.s
     [] st.t \in {"fun", "funx"} -> [s EXCEPT !.env[st.n] = VFun(st.p, st.ss, st.r)]
 
 ExecSeq(ss, i, s) == IF i > Len(ss) \/ ~Live(s) THEN s ELSE ExecSeq(ss, i + 1, Exec(ss[i], s))
@@ -196,6 +211,7 @@ Nodes(e) == {e} \cup
      [] e.t = "par"  -> Nodes(e.e)
      [] e.t = "call" -> Nodes(e.a)
      [] e.t \in {"var", "set"} -> Nodes(e.e)
+     [] e.t = "if"   -> Nodes(e.c) \cup SeqNodes(e.ss)
      [] e.t \in {"fun", "funx", "body"} -> SeqNodes(e.ss) \cup Nodes(e.r)
      [] e.t = "jsx"  -> Nodes(e.e)
      [] e.t = "tmpl" -> Nodes(e.a) \cup Nodes(e.b)
